@@ -1,5 +1,7 @@
 """Edit histories for the language server (C10, C11): modules whose diagnostics depend on each
 other's signatures directly (imports) and transitively (types that flow through signatures)."""
+import re
+
 
 TYPES = ['int', 'Str', 'bool']
 LIT = {'int': '1', 'Str': '"s"', 'bool': 'true'}
@@ -34,7 +36,8 @@ def module_text(rng, name, universe, long_ids=False):
         lines.append('import { Ghost } from Missing;')                    # missing module
     c = cls(name)
     priv = 'private ' if rng.chance(1, 15) else ''
-    v = (LONG + name) if long_ids else 'v'
+    v = (LONG + name) if long_ids else rng.pick(['v', 'v', 'v', 'w'])           # the field's name may change between versions
+    fpriv = 'private ' if (not long_ids and rng.chance(1, 8)) else ''            # ... and its visibility
     body = []
     # documentation comments on declarations that other modules refer to (hover on a use elsewhere shows them); how many
     # a module has varies, so that comment indices of one module are out of range for another
@@ -59,8 +62,11 @@ def module_text(rng, name, universe, long_ids=False):
             body.append('  function %s(): int = %s.f()' % (fn, cm))
         elif u < 60:
             body.append('  function %s(): %s = %s.make()' % ('via', cm, cm))
-        elif u < 80:
+        elif u < 70:
             body.append('  function %s(): int = %s.via().get()' % (fn, cm))
+        elif u < 80:
+            # direct field access: depends on the imported class's field name and visibility, not on any member signature
+            body.append('  function %s(): %s = %s.make().v' % (fn, rng.pick(TYPES), cm))
         else:
             body.append('  function %s(): %s = %s.make().get()' % (fn, rng.pick(TYPES), cm))
     extra_decls = ''
@@ -82,7 +88,7 @@ def module_text(rng, name, universe, long_ids=False):
                        'class EnumWithAVeryLongName%s(VariantWithAVeryLongNameOne%s(int), VariantWithAVeryLongNameTwo%s) {\n'
                        '  method matchOn%s(): int = match this { VariantWithAVeryLongNameOne%s(patternBinderWithAVeryLongName%s) -> patternBinderWithAVeryLongName%s, VariantWithAVeryLongNameTwo%s -> 0 }\n}\n'
                        % (u, u, u, u, u, u, u, u, u, u))
-    text = '\n'.join(lines) + '\n\n%s%sclass %s(%sval %s: %s) {\n%s\n}\n' % (class_doc, priv, c, field_doc, v, t, '\n'.join(body)) + extra_decls
+    text = '\n'.join(lines) + '\n\n%s%sclass %s(%s%sval %s: %s) {\n%s\n}\n' % (class_doc, priv, c, field_doc, fpriv, v, t, '\n'.join(body)) + extra_decls
     if rng.chance(1, 10):
         # a recoverable syntax error somewhere inside
         text = text.replace('): int =', ') int =', 1) if '): int =' in text else text + '\nclass'
@@ -106,13 +112,38 @@ def _gen_history(rng, nmods, nsteps, long_ids):
             init[m] = module_text(rng, m, universe, long_ids)
     ops = []
     live = set(init)
+    texts = dict(init)           # current text per module name (for edits that change one detail of the current version)
     for _ in range(rng.range(2, nsteps)):
         r = rng.below(100)
+        small = [m for m in sorted(live) if m in texts and re.search(r'val [vw]: ', texts[m])]
+        if small and rng.chance(1, 5):
+            # an edit that leaves every member signature as it is: the field is renamed, or made private / public
+            m = rng.pick(small)
+            t = texts[m]
+            kind = rng.below(3)
+            if kind == 0:
+                old_f, new_f = ('v', 'w') if 'val v: ' in t else ('w', 'v')
+                t2 = t.replace('val %s: ' % old_f, 'val %s: ' % new_f).replace('this.%s' % old_f, 'this.%s' % new_f)
+            elif kind == 1:
+                t2 = t.replace('private val ', 'val ') if 'private val ' in t else re.sub(r'val ([vw]): ', r'private val \1: ', t, count=1)
+            else:
+                t2 = re.sub(r'function f\(\): (\w+) = ', lambda mm: 'function f(): %s = ' % mm.group(1), t) + '\n// touched\n'
+            ops.append({'op': 'update', 'mods': [[m, t2]]})
+            texts[m] = t2
+            continue
         if r < 60 or not live:
             k = rng.pick([1, 1, 1, 2])
             ms = rng.shuffle(universe + extra[:1])[:k]
-            ops.append({'op': 'update', 'mods': [[m, module_text(rng, m, universe + extra[:1], long_ids)] for m in ms]})
+            mods = [[m, module_text(rng, m, universe + extra[:1], long_ids)] for m in ms]
+            if rng.chance(1, 10):
+                # the same module twice in one batch: only its last text counts
+                m = mods[0][0]
+                mods.insert(0, [m, rng.pick(['class {', 'class %s { function f(): int = "unterminated }' % cls(m),
+                                             module_text(rng, m, universe, long_ids)])])
+            ops.append({'op': 'update', 'mods': mods})
             live.update(ms)
+            for mm_, tt_ in mods:
+                texts[mm_] = tt_
         elif r < 80:
             a = rng.pick(sorted(live) + universe[:1])
             b = rng.pick(extra + universe)
@@ -120,10 +151,13 @@ def _gen_history(rng, nmods, nsteps, long_ids):
             if a in live:
                 live.discard(a)
                 live.add(b)
+                if a in texts:
+                    texts[b] = texts.pop(a)
         else:
             k = rng.pick([1, 1, 2])
             ms = rng.shuffle(sorted(live) + universe[:1])[:k]
             ops.append({'op': 'remove', 'mods': ms})
             for m in ms:
                 live.discard(m)
+                texts.pop(m, None)
     return {'init': init, 'ops': ops}
